@@ -206,8 +206,14 @@ def run_shards(binary, pid, tier, seed, lane, nshards, extra_env=None, timeout=N
                     continue
                 except Exception:
                     pass
+            hang = None
+            if os.path.exists(outp + ".hang"):
+                try:
+                    hang = json.load(open(outp + ".hang"))
+                except Exception:
+                    hang = {"hang": True}
             failures.append({"shard": i, "rc": rc, "stderr": err.decode("utf8", "replace")[-3000:],
-                             "wall_s": dt, "cmd": cmd, "lane": lane})
+                             "wall_s": dt, "cmd": cmd, "lane": lane, "hang": hang})
     return reports, failures
 
 
@@ -381,6 +387,7 @@ def finish(agg, pid, tier, seed, t0, meta, floors):
     for c in floors.get("cells", []):
         if not any(fnmatch.fnmatchcase(k, c) and n > 0 for k, n in agg["cells"].items()):
             problems.append("coverage cell %s never observed" % c)
+    problems.extend(meta.get("inconclusive", []))
     distinct = len(agg["hashes"])
     if distinct < 2:
         problems.append("fewer than 2 distinct non-trivial cases")
